@@ -62,6 +62,11 @@ def generate(ck):
     # (negative scaled pseudopressure at the fracture face): the scaled problem does not depend on it
     descs.append({"cls": "single", "table": {"kind": "synthetic", "family": "const-diffusivity", "prm": [0.3, 0.6, 0.2], "n": 200, "p_lo": 50.0, "p_hi": 9000.0, "grid": "uniform", "seed": 0, "datum": 0.4}, "p_i": 8000.0, "p_f": 2000.0, "r": 8, "t_end": 5.0})
     descs.append({"cls": "single", "table": {"kind": "synthetic", "family": "falling", "prm": [0.5, 0.9, 0.5], "n": 200, "p_lo": 50.0, "p_hi": 9000.0, "grid": "uniform", "seed": 0, "datum": 0.5}, "p_i": 8500.0, "p_f": 1500.0, "r": 8, "t_end": 4.0})
+    # evenly spaced time grids with nt proportional to nx (np.linspace(0, T, r nx)): the t^-1/2 flux
+    # transient is then under-resolved at every rung and convergence is slower than first order, but
+    # the error still SHRINKS under refinement - judged by its rate only
+    descs.append({"cls": "ideal", "ratio": 0.3, "r": 4, "t_end": 1.0, "uniform_nt": True})
+    descs.append({"cls": "single", "table": {"kind": "synthetic", "family": "const-diffusivity", "prm": [0.3, 0.6, 0.2], "n": 200, "p_lo": 50.0, "p_hi": 9000.0, "grid": "uniform", "seed": 0}, "p_i": 8000.0, "p_f": 3000.0, "r": 2, "t_end": 0.5, "uniform_nt": True})
     descs.append(dict(descs[0], decoy=True, t_end=5.0))
     descs.append(dict(descs[3], decoy=True, t_end=4.0))
     n = 2 if ck.tier == "quick" else 200
@@ -71,6 +76,8 @@ def generate(ck):
         u = i % 4
         if u == 0:
             descs.append({"cls": "ideal", "ratio": float(rng.choice([0.0, 0.5, 0.9, 0.999, float(rng.random())])), "r": r, "t_end": t_end})
+            if i % 16 == 0:
+                descs.append({"cls": "ideal", "ratio": float(rng.choice([0.0, 0.5, 0.9, float(rng.random())])), "r": int(rng.choice([2, 4, 8])), "t_end": float(rng.uniform(0.3, 2.0)), "uniform_nt": True})
             continue
         if u == 1:
             t = {"kind": "synthetic", "family": "const-diffusivity", "prm": [float(v) for v in rng.random(3)], "n": int(rng.choice([12, 60, 300])), "p_lo": 50.0, "p_hi": 9000.0, "grid": str(rng.choice(["uniform", "nonuniform"])), "seed": int(rng.integers(0, 999))}
@@ -144,6 +151,7 @@ def run_case(ck, desc):
         coarse = D.mol_dense(a, m_f, m_i, t_end, n=n_fine // 2)
         ck.count("mol_reference_solves", 2)
     errs_rec, errs_fld, selfc = [], [], 0.0
+    errs_rec_k7 = []
     for nx in rungs:
         nt = r * nx
         t = np.linspace(0, math.sqrt(t_end), nt) ** 2
@@ -152,6 +160,8 @@ def run_case(ck, desc):
             t = np.linspace(0.0, t_end, nt)
         if coarse_nt:
             nt = coarse_nt
+            t = np.linspace(0.0, t_end, nt)
+        if desc.get("uniform_nt"):
             t = np.linspace(0.0, t_end, nt)
         res = IdealReservoir(nx, p_f, p_i, None) if cls == "ideal" else SinglePhaseReservoir(nx, p_f, p_i, fluid)
         sim.SIM_EVENTS.clear()
@@ -195,6 +205,11 @@ def run_case(ck, desc):
             xx = np.concatenate([[0.0], x])
             Ui = np.array([np.interp(xs, xx, np.concatenate([[m_f], u])) for u in Uf[late]])
             fld = np.max(np.abs(pp[late] - Ui)) / R
+        if desc.get("uniform_nt") and plateau != 0:
+            # (for known finding K7) the same error with the first trapezoid panel's share of the t = 0
+            # frac-face spike, 0.75 (nx - 1) dt_0 of the plateau, taken out
+            first_panel = np.where(t > t[0], 0.75 * (nx - 1) * (t[1] - t[0]), 0.0)
+            errs_rec_k7.append(float(np.max(np.abs(rf / plateau - first_panel - F))))
         if plateau != 0:
             errs_rec.append(float(np.max(np.abs(rf / plateau - F))))
         else:
@@ -230,6 +245,26 @@ def run_case(ck, desc):
                 ck.violation("first-order-in-time-error", {"what": what, "errors": e, "dt": dt}, desc)
         ck.count("ladders_space_only_coarse_time")
         return bool(errs_fld[0] > 1e-4), {"ref": ref, "coarse_nt": coarse_nt, "fld_err": errs_fld}
+    if desc.get("uniform_nt"):
+        # unchanged tree: recovery errors 0.082, 0.054, 0.036, 0.025 (ratio 0.67 per doubling) at r = 4
+        def shrinks(e):
+            return all(e[k + 1] <= 0.85 * e[k] for k in range(len(e) - 1) if e[k] > 1e-4) and (e[0] <= 1e-4 or e[-1] <= 0.5 * e[0])
+
+        for what, e in (("recovery", errs_rec), ("field", errs_fld)):
+            known = None
+            if what == "recovery" and cls != "ideal" and not shrinks(e) and len(errs_rec_k7) == len(e) and shrinks(errs_rec_k7):
+                # mechanism K7: what does not shrink is exactly the first trapezoid panel of the spike
+                # that the single-phase class stores at t = 0 (node 0 of the initial row = m_f)
+                known = "K7-first-panel-of-the-frac-face-spike"
+            for k in range(len(rungs) - 1):
+                if e[k] > 1e-4 and not ck.margin(f"uniform time grid: err(2 nx) <= 0.85 err(nx) ({what}{', K7 term removed' if known else ''})", (errs_rec_k7 if known else e)[k + 1] / (errs_rec_k7 if known else e)[k], 0.85):
+                    ck.violation("error-shrinks-under-refinement", {"what": what, "rate": e[k + 1] / e[k], "nx": rungs[k], "errors": e, "time_grid": "uniform, nt = r nx"}, desc, known_key=known)
+            if known:
+                ck.violation("error-shrinks-under-refinement", {"what": what, "errors": e, "errors_without_first_panel": errs_rec_k7, "time_grid": "uniform, nt = r nx", "r": r}, desc, known_key=known)
+            elif e[0] > 1e-4 and not ck.margin(f"uniform time grid: finest/coarsest <= 0.5 ({what})", e[-1] / e[0], 0.5):
+                ck.violation("error-shrinks-under-refinement", {"what": what, "errors": e, "time_grid": "uniform, nt = r nx"}, desc)
+        ck.count("ladders_uniform_time_grid")
+        return bool(errs_rec[0] > 1e-4), {"ref": ref, "uniform_nt": True, "rec_err": errs_rec, "fld_err": errs_fld}
     if theta:
         r = 1e9  # the time-quadrature term of K vanishes: dt = theta dx^2 is far finer than r nx steps
     ok_ref = True
